@@ -130,6 +130,9 @@ func (sp *HarnessSpec) config(tier string, base Config) Config {
 			c.Timeout = time.Duration(n) * time.Second
 		}
 	}
+	if wl := geti("wall", 0); wl > 0 {
+		c.Wall = time.Duration(wl) * time.Second
+	}
 	if v := sp.Ann["sched"]; len(v) > 0 {
 		fs := strings.Fields(v[0])
 		c.Sched = fs[0]
